@@ -912,8 +912,43 @@ def oracleC10 (p : Parsed) (ex : Expect) (fs : List (String × String)) : Option
       | [_, c, _, _] => c.toNat?
       | _ => none
     if ex.sizesSafe && code == some 8 && ex.errCode != 8 then some "rejected for size although every representation of every message fits" else
-    if !ex.readsAll then none else
     let L := o.conf.maxMsg
+    -- response side: a response message with an oversized representation on a path that buffers it
+    let writes := p.sc.script.foldl (fun acc op => match op with | .write b => acc ++ b | _ => acc) ([] : Bytes)
+    let respComp : Option Bytes := p.sc.script.foldl (fun acc op => match op with
+      | .sethdr k v => if [s "Grpc-Encoding", s "Connect-Content-Encoding", s "Content-Encoding"].contains (canonKey k) then nonIdentity v else acc
+      | _ => acc) none
+    let respBuffering := o.ccodec != o.scodec || o.cform.endMustBeInHeaders || (o.serverEnveloper.isNone && o.clientEnveloper.isSome)
+    let respFrames : List (UInt8 × Bytes) := match o.serverEnveloper with
+      | some _ => let (fr, whole) := framesAndRest (writes.length + 1) writes
+                  if whole then fr.filter (fun f => f.1 ≤ 1) else []
+      | none => if ex.respValues.isEmpty then [] else [((if respComp.isSome then 1 else 0), writes)]
+    let respOversized (f : UInt8 × Bytes) : Bool :=
+      let dec : Bytes := if f.1 == 1 then
+          (match respComp with
+           | some z => if f.2.isEmpty then f.2 else (fakeWorld.decompress z f.2).getD []
+           | none => f.2)
+        else f.2
+      let reenc : Bytes := if o.ccodec == o.scodec then dec else
+        (match fakeWorld.decode o.scodec dec with
+         | some v => fakeWorld.encode o.ccodec v
+         | none => [])
+      (f.2.length > L && (o.ccodec != o.scodec || o.cform.endMustBeInHeaders)) || dec.length > L && (o.ccodec != o.scodec || (f.1 == 1 && false)) || reenc.length > L
+    let respCheck : Option String :=
+      if !respBuffering || ex.errCode != 0 then none else
+      match respFrames.findIdx? respOversized with
+      | none => none
+      | some j =>
+        if code == some 0 then some s!"response message {j} has a representation above the limit on a buffering path, yet the client saw success"
+        else
+          let delivered : Nat := match o.clientEnveloper with
+            | some _ => if fieldOf fs "cb" == "-" then 0 else ((fieldOf fs "cb").splitOn ",").length
+            | none => if fieldOf fs "cs" == "200" then 1 else 0
+          if delivered > j then some s!"oversized response message {j} was delivered to the client" else none
+    match respCheck with
+    | some why => some why
+    | none =>
+    if !ex.readsAll then none else
     let pl := o.plan fakeWorld
     let buffering := !(pl.sameReqCompression && pl.sameReqCodec && !pl.mustDecode)
     match o.clientEnveloper with
